@@ -71,20 +71,26 @@ func Scalar(k SK) *Type {
 	return TF32
 }
 
-var vecCache [4][5]*Type
-var matCache [5][5]*Type
+// (initialised by functions so that package-level values built from Vec/Mat see filled caches)
+var vecCache = buildVecCache()
+var matCache = buildMatCache()
 
-func init() {
+func buildVecCache() (c [4][5]*Type) {
 	for k := Bool; k <= F32; k++ {
 		for n := 2; n <= 4; n++ {
-			vecCache[k][n] = &Type{K: TVec, S: k, N: n}
+			c[k][n] = &Type{K: TVec, S: k, N: n}
 		}
 	}
-	for c := 2; c <= 4; c++ {
+	return
+}
+
+func buildMatCache() (c [5][5]*Type) {
+	for cc := 2; cc <= 4; cc++ {
 		for r := 2; r <= 4; r++ {
-			matCache[c][r] = &Type{K: TMat, S: F32, C: c, N: r}
+			c[cc][r] = &Type{K: TMat, S: F32, C: cc, N: r}
 		}
 	}
+	return
 }
 
 func Vec(k SK, n int) *Type { return vecCache[k][n] }
